@@ -491,3 +491,50 @@ def units(prop, tier):
             u('hash.blake2.%s.frames' % pre, [c + '.update', c + '.verify#bytearray'])
         u('hash.poly1305.frames', [PM + '.update', PM + '.verify#bytearray'])
     return us
+
+
+# ====================================================================================================================
+# NOT PROVED: HMAC._pbkdf2_hmac_assist / SHA256._pbkdf2_hmac_assist (native inner loop of PBKDF2: belongs to the KDF area, assumed there).
+# NOT PROVED: hexverify()/hexdigest() of HMAC, BLAKE2b/s, Poly1305 (text layer: unhexlify / "%02x" formatting outside the PYVC subset).
+# NOT PROVED: HMAC with digestmod=None (default MD5 import) and with a digestmod that has no `oid` attribute / no block_size
+#   (AttributeError -> ValueError "Hash type incompatible to HMAC"): the abstract hash module always has digest_size, block_size, oid.
+# NOT MODELLED: ERR_MAX_DATA of the native update/digest functions (more than 2**61 / 2**64 / 2**125 / 2**128 bytes fed to one object).
+# BLAKE2b/s have no copy() method in this tree; Poly1305_MAC.copy() raises NotImplementedError unconditionally (nothing to prove).
+#
+# Mutation checks (tools/mut.py; exit 1 = VIOLATION on the named obligation):
+#   lib/Crypto/Hash/HMAC.py
+#     __init__  ipad `b"\x36"` -> `b"\x5c"`                           exit 1  C03 HMAC.__init__.ensures.inner
+#     __init__  `len(key) <= digestmod.block_size` -> `<`             exit 1  C03 HMAC.__init__.ensures.inner / outer
+#     digest    `update(self._inner.digest())` -> `self._outer.digest()`   exit 1  C03 HMAC.digest.ensures.value
+#     copy      `new_hmac._outer = self._outer.copy()` -> `self._outer`    exit 1  C19 HMAC.copy.ensures.fresh
+#     digest    `frozen_outer_hash = self._outer.copy()` -> `self._outer`  exit 1  C19 HMAC.digest.modifies.obj4.g_data (+ ensures.value)
+#     digest    benign: `outer = self._outer; frozen_outer_hash = outer.copy()`   exit 0
+#   lib/Crypto/Hash/BLAKE2b.py
+#     new       `len(key) > 64` -> `> 65`                             exit 1  C03 BLAKE2b.new.raises_iff.TypeError.only_if (native refusal surfaces)
+#     digest    `[:self.digest_size]` -> `[:self.digest_size - 1]`    exit 1  C03 BLAKE2b_Hash.digest.ensures.value / size
+#     verify    `data=self.digest()` -> `data=mac_tag`                exit 1  C03 BLAKE2b_Hash.verify.raises_iff.ValueError.if
+#     digest    drop `self._digest_done = True`                       exit 1  C10 BLAKE2b_Hash.digest.ensures.fsm_MAC_digest_final_digest_from_0 / done
+#     new       `digest_bits // 8` -> `// 4`                          exit 1  C03 BLAKE2b.new.raises_iff.ValueError.only_if, ensures.params
+#     new       `1 <= digest_bytes` -> `0 <= digest_bytes`            exit 0  EQUIVALENT at the contract's level: the native init refuses size 0
+#                                                                             with the same exception type (ValueError)
+#   lib/Crypto/Hash/Poly1305.py
+#     __init__  `len(r) != 16` -> `!= 32`                             exit 1  C03 Poly1305_MAC.__init__.raises_iff.ValueError.only_if
+#     update    `if self._mac_tag:` -> `if not self._mac_tag:`        exit 1  C10 Poly1305_MAC.update.raises_iff.TypeError.if
+#     verify    `if mac1.digest() != mac2.digest():` -> `if False:`   exit 1  C03 Poly1305_MAC.verify.raises_iff.ValueError.if
+#   lib/Crypto/Cipher/AES.py  _derive_Poly1305_key_pair
+#     `return key[16:], s, nonce` -> `key[:16]`                       exit 1  C03 AES._derive_Poly1305_key_pair.ensures.r (confirmed by native replay)
+#     `elif len(nonce) != 16:` -> `!= 12`                             exit 1  C03 AES._derive_Poly1305_key_pair.call_pre.len_plaintext_16, raises_iff.ValueError
+#   lib/Crypto/Cipher/ChaCha20.py  _derive_Poly1305_key_pair
+#     `return rs[:16], rs[16:], nonce` -> halves swapped              exit 2  ensures.r / ensures.s not proved; the counter-models cannot be confirmed
+#     `b'\x00\x00\x00\x00' + nonce` -> `nonce + b'\x00\x00\x00\x00'`  exit 2  natively (the key stream is an uninterpreted symbol): undecided, not a pass
+#     `elif len(nonce) == 8:` -> `== 7`                               exit 1  C03 ChaCha20._derive_Poly1305_key_pair.call_pre.len_kwargs_nonce_12, raises_iff.ValueError.only_if
+#     drop the `raise ValueError(.. 32-byte key)`                     exit 1  C03 ChaCha20._derive_Poly1305_key_pair.call_pre.len_kwargs_key_32
+#     `.encrypt(b'\x00' * 32)` -> `* 33`                              exit 1  C03 ChaCha20._derive_Poly1305_key_pair.call_pre.plaintext_bytes_32
+#     benign: `stream = new(..); rs = stream.encrypt(b'\x00' * 32)`   exit 0
+#   lib/Crypto/Hash/Poly1305.py  new
+#     `if cipher_key is None: raise TypeError` -> `raise ValueError`  exit 1  C03 Poly1305.new.raises_iff.ValueError.only_if
+#     `Poly1305_MAC(r, s, data)` -> `Poly1305_MAC(s, r, data)`        exit 1  C03 Poly1305.new.ensures.aes
+#   lib/Crypto/Hash/SHA256.py
+#     copy      `clone = SHA256Hash()` -> `clone = self`              exit 1  C19 SHA256Hash.copy.ensures.fresh
+#     new       `SHA256Hash().new(data)` -> `.new(None)`              exit 1  C03 SHA256.new.ensures.absorbed
+#     update    `c_size_t(len(data))` -> `c_size_t(len(data) // 2)`   exit 1  C09 SHA256Hash.update.call_pre.length_len_data
